@@ -68,11 +68,13 @@ Qed.
 (* what the check establishes: the recorded observation is the model's *)
 Lemma check_spec c : c09_check c = true ->
   c_obs c = snd (script_run minit (c_script c)) /\
-  c_events c = map ev_obs (rev (s_events (m_s (fst (script_run minit (c_script c)))))).
+  c_events c = map ev_obs (rev (s_events (m_s (fst (script_run minit (c_script c)))))) /\
+  (existsb step_outside (c_script c) = false -> drained_quiescent minit book0 (c_script c) = true).
 Proof.
-  unfold c09_check, model_obs. destruct (script_run minit (c_script c)) as [m os]. simpl. intros E.
-  apply andb_true_iff in E as [E1 E2].
-  apply (list_eqb_eq _ obs_eqb_eq) in E1. apply (list_eqb_eq _ evobs_eqb_eq) in E2. auto.
+  unfold c09_check, model_obs. destruct (script_run minit (c_script c)) as [m os]. cbn [fst snd]. intros E.
+  apply andb_true_iff in E as [E E3]. apply andb_true_iff in E as [E1 E2].
+  apply (list_eqb_eq _ obs_eqb_eq) in E1. apply (list_eqb_eq _ evobs_eqb_eq) in E2.
+  split; [auto|]. split; [auto|]. intros H. rewrite H in E3. exact E3.
 Qed.
 
 (* ---------- macro steps are runs of well-formed labels ---------- *)
@@ -152,7 +154,7 @@ Qed.
 (* well-formed script steps: inside the oracle's assumptions (not step_outside), and no repair commit answered with a bare abort *)
 Definition dstep_wf (d : dstep) : Prop :=
   step_outside d = false /\
-  match d with DRetry e _ | DRetryFinish e => e <> EnvAbort | _ => True end.
+  match d with DRetry e _ | DRetryFinish e => e <> EnvAbort | DWrite op _ _ _ => op_is_write op = true | _ => True end.
 
 Lemma dstep_wf_write op envs g h : dstep_wf (DWrite op envs g h) -> envs_wf envs /\ op_wf op.
 Proof.
@@ -387,7 +389,6 @@ Proof.
 Qed.
 
 (* the oracle's fold over (script, observation) *)
-Definition book0 : book := {| bk_dealt := r0; bk_unres := []; bk_parked := false; bk_ok := true |}.
 Definition cs0 : cstate := {| cs_book := book0; cs_lists := []; cs_probe := None; cs_conv := true; cs_probe_ok := true |}.
 
 Lemma conv_step_book evs a x : cs_book (conv_step evs a x) = book_step (cs_book a) x.
@@ -402,19 +403,6 @@ Proof.
   intros N. unfold conv_step. destruct d; try contradiction;
     repeat match goal with |- context [match ?x with _ => _ end] => destruct x end; auto.
 Qed.
-
-(* Where the oracle regards a List as drained, the model state must be quiescent. This is the one link between the
-   oracle's bookkeeping over observations and the model state that is CHECKED per case (executably) instead of proved
-   for all scripts; see props/C09.json "gaps". *)
-Fixpoint drained_quiescent (m : mstate) (b : book) (ds : list dstep) : bool :=
-  match ds with
-  | [] => true
-  | d :: ds' =>
-      let mo := dstep_run m d in
-      let b' := book_step b (d, snd mo) in
-      match d with DList => implb (drained b' (snd mo)) (quiescentb (m_s (fst mo))) | _ => true end
-      && drained_quiescent (fst mo) b' ds'
-  end.
 
 Lemma dstep_eq_list d : d = DList \/ d <> DList.
 Proof. destruct d; try (right; discriminate). left. reflexivity. Qed.
@@ -460,8 +448,13 @@ Proof.
 Qed.
 
 (* ---------- the clauses of c09_oracle on a case that passed the check ---------- *)
-Definition c09_valid (c : c09_case) : Prop :=
-  Forall dstep_wf (c_script c) /\ drained_quiescent minit book0 (c_script c) = true.
+(* validity of a case: every script step is inside the stated assumptions *)
+Definition c09_valid (c : c09_case) : Prop := Forall dstep_wf (c_script c).
+
+Lemma valid_not_outside ds : Forall dstep_wf ds -> existsb step_outside ds = false.
+Proof.
+  induction 1 as [|d ds [H _] _ IH]; [reflexivity|]. simpl. rewrite H, IH. reflexivity.
+Qed.
 
 Lemma minit_reach : reach r0 (m_s minit).
 Proof. apply reach_init. Qed.
@@ -478,7 +471,7 @@ Theorem oracle_clause_increasing c :
   Forall dstep_wf (c_script c) -> c09_check c = true ->
   increasing (map (fun e : evobs => let '(_, _, _, r, _) := e in r) (c_events c)) = true.
 Proof.
-  intros W C. destruct (check_spec c C) as [_ ->]. rewrite evobs_rev_map. apply ev_desc_increasing.
+  intros W C. destruct (check_spec c C) as [_ [-> _]]. rewrite evobs_rev_map. apply ev_desc_increasing.
   apply (a_sorted _ (reach_inv3 r0 _ (leads_reach r0 _ _ minit_reach (script_run_leads (c_script c) minit W)))).
 Qed.
 
@@ -487,25 +480,24 @@ Qed.
 Theorem oracle_clause_converges c :
   c09_valid c -> c09_check c = true -> cs_conv (conv_of c) = true.
 Proof.
-  intros [W DQ] C. destruct (check_spec c C) as [Eo Ee]. unfold conv_of. rewrite Ee, oracle_events, Eo.
+  intros W C. destruct (check_spec c C) as [Eo [Ee DQ]]. specialize (DQ (valid_not_outside _ W)). unfold conv_of. rewrite Ee, oracle_events, Eo.
   apply (conv_fold r0 (c_script c) minit cs0); try assumption; [apply minit_reach|intros ? ? []|reflexivity].
 Qed.
 
 (* executable form of c09_valid *)
 Definition dstep_wfb (d : dstep) : bool :=
-  negb (step_outside d) && match d with DRetry EnvAbort _ | DRetryFinish EnvAbort => false | _ => true end.
-Definition c09_validb (c : c09_case) : bool :=
-  forallb dstep_wfb (c_script c) && drained_quiescent minit book0 (c_script c).
+  negb (step_outside d) && match d with DRetry EnvAbort _ | DRetryFinish EnvAbort => false | DWrite op _ _ _ => op_is_write op | _ => true end.
+Definition c09_validb (c : c09_case) : bool := forallb dstep_wfb (c_script c).
 
 Lemma dstep_wfb_spec d : dstep_wfb d = true -> dstep_wf d.
 Proof.
   unfold dstep_wfb, dstep_wf. intros H. apply andb_true_iff in H as [H1 H2]. apply negb_true_iff in H1. split; [exact H1|].
-  destruct d; try exact I; destruct e; try discriminate; intros E; discriminate.
+  destruct d; try exact I; [exact H2|destruct e; try discriminate; intros E; discriminate..].
 Qed.
 
 Lemma c09_validb_spec c : c09_validb c = true -> c09_valid c.
 Proof.
-  unfold c09_validb, c09_valid. intros H. apply andb_true_iff in H as [H1 H2]. split; [|exact H2].
+  unfold c09_validb, c09_valid. intros H1.
   apply Forall_forall. intros d Hd. apply dstep_wfb_spec. rewrite forallb_forall in H1. apply H1. exact Hd.
 Qed.
 
